@@ -338,8 +338,36 @@ impl Harness for C08 {
             jobs,
             budget_s: if t { 2400 } else { 40 },
             case_deadline_ms: std::env::var("C08_DEADLINE_MS").ok().and_then(|v| v.parse().ok()).unwrap_or(20_000),
-            floors: vec![("fits_ok", 1000)],
-            bounds: json!({}),
+            floors: vec![
+                ("fits_ok", 500_000),
+                ("judged_lasso_normalized", 100_000),
+                ("judged_lasso_raw", 100_000),
+                ("judged_enet_mean_zero_normalized", 50_000),
+                ("judged_enet_mean_zero_raw", 50_000),
+                ("judged_enet_mean_nonzero", 2_000),
+                ("optimum_all_zero", 50_000),
+                ("optimum_sparse", 30_000),
+                ("optimum_dense", 100_000),
+                ("shifted_target_cases", 100_000),
+                ("enet_shift_pairs_compared", 2_000),
+                ("enet_l1ratio1_compared_with_lasso", 10_000),
+                ("invalid_settings_rejected", 5_000),
+                ("invalid_single_setting_rejected", 100),
+                ("invalid_constant_column_rejected", 10),
+                ("constant_target_cases", 50),
+            ],
+            bounds: json!({
+                "lattice_lasso": if t {
+                    "every X over S4={0,1,-1,2} (no constant column) for (p,n) in {(1,2),(1,3),(1,4),(2,3)}, over S3={0,1,-1} for (2,4), over {0,1} for (3,4); every y over {0,1,-2,3}^n; alpha {0.1,1,1e-3,10} x normalize {on,off} x tol {1e-4,1e-3,1e-6} x shift {0,10,1e4} (p>=2,n=4: tol and shift paired)"
+                } else {
+                    "every X over S4={0,1,-1,2} (no constant column) for (p,n) in {(1,2),(1,3)}, over S3={0,1,-1} for (2,3); every y over {0,1,-2,3}^n; alpha {0.1,1,1e-3,10} x normalize {on,off} x tol {1e-4,1e-3,1e-6} x shift {0,10,1e4} (p=2: tol and shift paired)"
+                },
+                "lattice_elastic_net": "same X; every zero-sum y (first n-1 entries over {0,1,-2,3}, last = -sum; exact mean 0); alpha x normalize x l1_ratio {0.5,1,0.25} x tol; plus (watched) free targets and shifts for the known target-mean defect",
+                "structured": format!("4 design families (Chebyshev, nested steps, integer residues, correlated ramps) x p=1..6 x n in {} x 3 column-scale patterns (1 / graded 1e-1..1e2 / alternating 1e2,1e-1) x 2 column offsets x 3 signal patterns x alpha {{0.1,1,1e-3, oracle-chosen all-zero alpha}} x normalize x tol x shift; designs with 2-norm condition number > 1e4 are outside the quantifier (fitted, only termination/no-panic judged)", if t { "p+1..=60 (every n)" } else { "{p+1,p+2,12,31,60}" }),
+                "invalid_settings": "alpha {0.1,-1,-1e-3,-1e300} x tol {1e-4,0,-1e-4,-0} x max_iter {1000,0} x shapes (n>p, n=p, n<p) x len(y)-n {0,-1,1,2} x constant column {none, 8 values in every column position} x normalize: every combination with at least one invalid setting must return Err",
+                "constant_targets": "2 (quick) / 4 (thorough) designs x y = c*1 for c in {0,1,-2.5,1e4} x alpha {0.1,10,1e-3,1} x normalize x {Lasso, ElasticNet(0.5)} under a 1000 ms watchdog",
+                "slack": "objective(fit) <= min*(1+4 tol) + 1e-9 ||y-mean||^2 + 64 eps ||y||^2",
+            }),
         }
     }
 
